@@ -78,6 +78,28 @@ _add("EulerdArray", _euler(imath.Eulerd), "obj", "Eulerd")
 
 ARR_NAMES = sorted(ARR)
 
+# "strided" layout: the array is a member view (V3fArray.y, C3cArray.g, Box3fArray.max ...) of an aggregate array, so
+# its stride is 3 (2 for box corners) instead of 1; parent element = ctor(filler, value, filler)
+STRIDED = {}
+
+
+def _strided(cls, pcls, member, build, others):
+    if hasattr(imath, pcls) and hasattr(imath, cls):
+        STRIDED[cls] = dict(P=getattr(imath, pcls), member=member, build=build, others=others)
+
+
+for _s, _cls in (("f", "FloatArray"), ("d", "DoubleArray"), ("i", "IntArray"), ("s", "ShortArray")):
+    _vc = getattr(imath, "V3" + _s, None)
+    if _vc is not None:
+        _strided(_cls, "V3%sArray" % _s, "y", (lambda vc: (lambda v, f: vc(f, v, f + 1)))(_vc), lambda e: (e.x, e.z))
+_strided("UnsignedCharArray", "C3cArray", "g", lambda v, f: imath.Color3c(abs(int(f)) % 200, v, (abs(int(f)) + 1) % 200), lambda e: (e.r, e.b))
+for _s in ("s", "i", "f", "d"):
+    for _n in (2, 3):
+        _bc, _vc = getattr(imath, "Box%d%s" % (_n, _s), None), getattr(imath, "V%d%s" % (_n, _s), None)
+        if _bc is not None and _vc is not None:
+            _strided("V%d%sArray" % (_n, _s), "Box%d%sArray" % (_n, _s), "max",
+                     (lambda bc, vc, nn: (lambda v, f: bc(vc(*([int(f)] * nn)), v)))(_bc, _vc, _n), lambda e: repr(e.min()))
+
 
 def is_array(x):
     return type(x).__name__ in ARR
@@ -94,8 +116,9 @@ def kseq(n, a, b, signed=True):
     return out
 
 
-def build_array(cls, n, a, b, signed=True, masked=False, ramp=False):
-    """array of class `cls` with n elements; masked=True builds it as a masked reference into a 2n-element array"""
+def build_array(cls, n, a, b, signed=True, masked=False, ramp=False, strided=False):
+    """array of class `cls` with n elements; masked=True builds it as a masked reference into a 2n-element array;
+    strided=True (classes in STRIDED) builds it as a member view of an aggregate array (keepalive = the parent)"""
     t = ARR[cls]
     if t["base"] == "uint":
         signed = False
@@ -105,6 +128,13 @@ def build_array(cls, n, a, b, signed=True, masked=False, ramp=False):
         ks = [i + 1 + (a % 3) for i in range(n)]
     if cls == "BoolArray" and not signed:
         ks = [1] * n  # as an argument: all true (never a zero divisor after implicit conversion)
+    if strided and not masked and cls in STRIDED:
+        sp = STRIDED[cls]
+        parent = sp["P"](n)
+        filler = kseq(n, a + 3, b + 5, signed)
+        for i in range(n):
+            parent[i] = sp["build"](t["mk"](ks[i]), filler[i])
+        return getattr(parent, sp["member"]), parent
     if not masked:
         arr = t["T"](n)
         for i in range(n):
@@ -121,11 +151,11 @@ def build_array(cls, n, a, b, signed=True, masked=False, ramp=False):
     return base[m], base
 
 
-def build_arg(kind, n, a, b, ramp=False):
+def build_arg(kind, n, a, b, ramp=False, strided=False):
     """kind: 'arr:<Class>' | 'mask:<Class>' | 'elem:<Class>' | 'py:float' | 'py:int' -> (value, keepalive)"""
     tag, _, what = kind.partition(":")
     if tag == "arr":
-        return build_array(what, n, a, b, signed=False, ramp=ramp)
+        return build_array(what, n, a, b, signed=False, ramp=ramp, strided=strided)
     if tag == "mask":
         return build_array(what, n, a, b, signed=False, masked=True)
     if tag == "elem":
@@ -317,7 +347,12 @@ def clone(x):
         return x
 
 
-def evaluate(entry, n, a, b, self_masked=False, rhs_full=False):
+def parent_others(cls, parent):
+    sp = STRIDED[cls]
+    return [sp["others"](parent[i]) for i in range(len(parent))]
+
+
+def evaluate(entry, n, a, b, self_masked=False, rhs_full=False, self_strided=False, arg_strided=False):
     """rhs_full: (masked subject, in-place operator) give the array argument the UNMASKED length of the subject's
     base array (2n): element i of the view then pairs with argument[raw index of i] = argument[2i]"""
     CTX["ab"] = (a, b)
@@ -326,12 +361,15 @@ def evaluate(entry, n, a, b, self_masked=False, rhs_full=False):
     keep = []
     args, kinds = [], entry["args"]
     for j, k in enumerate(kinds):
-        v, ka = build_arg(k, 2 * n if (rhs_full and k.startswith("arr:")) else n, a + j + 1, b + 2 * j, ramp=(entry["kind"] == "subject-inplace"))
+        v, ka = build_arg(k, 2 * n if (rhs_full and k.startswith("arr:")) else n, a + j + 1, b + 2 * j, ramp=(entry["kind"] == "subject-inplace"), strided=arg_strided)
         args.append(v)
         keep.append(ka)
+    strided_parent = None
     if tag == "method":
-        subj, ka = build_array(what, n, a, b, signed=True, masked=self_masked)
+        subj, ka = build_array(what, n, a, b, signed=True, masked=self_masked, strided=self_strided)
         keep.append(ka)
+        if self_strided and not self_masked and what in STRIDED:
+            strided_parent = ka
         self_elems = [clone(subj[i]) if ARR[what]["base"] == "obj" else subj[i] for i in range(n)]
         fn = getattr(subj, entry["name"])
     elif tag == "func":
@@ -350,9 +388,13 @@ def evaluate(entry, n, a, b, self_masked=False, rhs_full=False):
         else:
             arg_elems.append(v)
     before = snapshot(subj) if subj is not None else None
+    others_before = parent_others(what, strided_parent) if strided_parent is not None else None
     r = fn(*args)
     out = dict(result=snapshot(r) if r is not None and type(r).__name__.endswith("Array") else None,
                self_after=snapshot(subj) if subj is not None else None, before=before, raw=r)
+    if strided_parent is not None:
+        out["strided"] = True
+        out["neighbours_intact"] = parent_others(what, strided_parent) == others_before
     return out, self_elems, arg_elems
 
 
